@@ -161,6 +161,9 @@ func (s *Solver) file(script string) string {
 
 // solve decides one obligation: quick attempt with z3-new, then a race.
 func (s *Solver) solve(fv *FuncVC, o *Obl, eng *Engine) *SolveResult {
+	if fv.Eng != nil {
+		eng = fv.Eng
+	}
 	script := fv.script(o, eng, true)
 	f := s.file(script)
 	defer os.Remove(f)
